@@ -38,13 +38,14 @@ let ipcp_cfg_of pa d1 d2 =
 (* enough oracle entries for any request: the suggestion itself is projected away *)
 let oracle = List.init 300 (fun _ -> [])
 
+let sta_ids = ref true
 let show_acts ?(sugg = false) ?(callbacks = true) ?(req = None) (acts : act list) : string =
   let l = List.filter_map (function
     | Scr -> (match req with None -> Some "scr" | Some os -> Some ("scr:" ^ show_opts os))
     | Sca (id, os) -> Some (Printf.sprintf "sca:%d:%s" (int_of_n id) (show_opts os))
     | Scn (id, os) -> Some (Printf.sprintf "scn:%d:%s" (int_of_n id) (show_opts ~sugg os))
     | Scj (id, os) -> Some (Printf.sprintf "scj:%d:%s" (int_of_n id) (show_opts os))
-    | Sta id -> Some (Printf.sprintf "sta:%d" (int_of_n id))
+    | Sta id -> Some (if !sta_ids then Printf.sprintf "sta:%d" (int_of_n id) else "sta")
     | Tlu -> if callbacks then Some "tlu" else None
     | Tld -> if callbacks then Some "tld" else None) acts in
   if l = [] then "-" else String.concat " " l
@@ -87,7 +88,7 @@ let () =
        (/repo HEAD) or only from a wholly acceptable request.  Both are admissible: the line is rendered for
        the first and, if the implementation's line differs, for the second. *)
     let render (stage : bool) =
-    Buffer.clear cur;
+    Buffer.clear cur; sta_ids := true;
     let ipcp_cfg_of pa d1 d2 = with_stage (with_refuse (ipcp_cfg_of pa d1 d2) refuse) stage in
     let refuse = (refuse, stage) in
     (try
@@ -164,6 +165,7 @@ let () =
           (o :: acc, s')) ([], s0) ops in
       emit (String.concat " | " (List.rev outs) ^ " ; P=" ^ hexs s.vo_peer)
     | (("sess" | "lns") as kind) :: start :: evs ->
+      sta_ids := false;
       (* <aaa>[/<alloc>[/<reserve>]]: aaa = none | hex; alloc = none | full | hex (pool allocation result);
          reserve = ok | cf (ReserveIP of the session's address) *)
       let ow = if kind = "lns" then LNS else PPPoE in
@@ -196,6 +198,7 @@ let () =
             else if ev = "o" then EvStoppingTimeout
             else if ev = "D" then EvDown
             else if ev = "T" then EvTimeout
+            else if ev = "X" then EvExhaust
             else if ev.[0] = 'R' then (let (a, al, rs) = split3 tl in EvReauth (aaa_of a, orc_of al rs))
             else
               let i = String.index ev '.' in
@@ -222,7 +225,7 @@ let () =
              | Sca (id, os) -> Some (Printf.sprintf "sca:%d:%s" (int_of_n id) (show_opts os))
              | Scn (id, os) -> Some (Printf.sprintf "scn:%d:%s" (int_of_n id) (show_opts ~sugg:true os))
              | Scj (id, os) -> Some (Printf.sprintf "scj:%d:%s" (int_of_n id) (show_opts os))
-             | Sta id -> Some (Printf.sprintf "sta:%d" (int_of_n id))
+             | Sta id -> Some "sta"
              | _ -> None) acts in if l = [] then "-" else String.concat " " l)
           (if s.vs_open then 1 else 0) (hexs s.vs_obj.vo_local) in
       let ended = ref false in
@@ -244,6 +247,36 @@ let () =
           if !ended then ("ended" :: acc, s) else begin
             (if ev.[0] = 'R' || ev.[0] = 'D' then ended := true);
             let (s', acts) = v6sess_step s e in (show s' acts :: acc, s') end) ([show s1 a1], s1) evs in
+      emit (String.concat " | " (List.rev outs))
+    | "pa" :: evs ->
+      sta_ids := false;
+      (* authentication gate: events before the AAA verdict: i<id>.<wire> / 6<id>.<wire> (IPCP / IPv6CP
+         Configure-Request through the dispatcher), F (reject), S<aaa> (accept), T (LCP restart timer);
+         after S: q<id>.<wire>, k as in sess *)
+      let show_sess (s : sess) acts = Printf.sprintf "%s up=%d a=%s pa=%s"
+          (show_acts ~callbacks:false ~req:(Some s.s_lastreq) acts) (if s.s_open then 1 else 0)
+          (show_addr s.s_addr) (show_addr s.s_cfg.ic_assigned) in
+      let (outs, _) = List.fold_left (fun (acc, st) ev ->
+          let tl = String.sub ev 1 (String.length ev - 1) in
+          let req v6 = let i = String.index ev '.' in
+            ANcpReq (v6, n_of_int (int_of_string (String.sub ev 1 (i - 1))),
+                     unhex (String.sub ev (i + 1) (String.length ev - i - 1))) in
+          let e = match ev.[0] with
+            | 'i' | 'q' -> req false
+            | '6' -> req true
+            | 'F' -> AFail
+            | 'S' -> AOk ((if tl = "none" then None else Some (unhex tl)), (None, None),
+                          { or_alloc = None; or_reserve_ok = true }, refuse)
+            | 'T' -> ATimeout
+            | 'k' -> ASess EvAck
+            | _ -> failwith "ev" in
+          let ((st', acts), ntr) = astep fl st e in
+          let line = match st' with
+            | AStarted s -> show_sess s acts
+            | APre -> "- pre"
+            | AFailed _ -> Printf.sprintf "- closing tr=%d" (int_of_nat ntr)
+            | AClosed -> "- closed" in
+          (line :: acc, st')) ([], APre) evs in
       emit (String.concat " | " (List.rev outs))
     | ("sl" | "ll") :: start :: evs ->
       (* LCP inside a PPPoE session: start = "fresh" (initPPP + up; the random magic is what the implementation's
@@ -275,7 +308,7 @@ let () =
           | Sca (id, os) -> Some (Printf.sprintf "sca:%d:%s" (int_of_n id) (show_opts os))
           | Scn (id, os) -> Some (Printf.sprintf "scn:%d:%s" (int_of_n id) (show_opts ~sugg:true os))
           | Scj (id, os) -> Some (Printf.sprintf "scj:%d:%s" (int_of_n id) (show_opts os))
-          | Sta id -> Some (Printf.sprintf "sta:%d" (int_of_n id))
+          | Sta id -> Some "sta"
           | _ -> None) acts in
         Printf.sprintf "%s up=%d lm=%s" (if l = [] then "-" else String.concat " " l)
           (if s.ls_open then 1 else 0) (hexs (put32 s.ls_obj.lo_magic)) in
